@@ -274,6 +274,10 @@ func handleWHO(c *Client, e Event) {
 	} else {
 		// Assume RPL_WHOREPLY.
 		// format: "<client> <channel> <user> <host> <server> <nick> <H|G>[*][@|+] :<hopcount> <real_name>"
+		if len(e.Params) < 8 {
+			return
+		}
+
 		ident, host, nick, realname = e.Params[2], e.Params[3], e.Params[5], e.Last()
 
 		// Strip the numbers from "<hopcount> <realname>"
